@@ -22,7 +22,9 @@ RULE = ('a universe of ~200 objects per run (addresses, networks with and withou
         'copy, deepcopy, pickle protocols 0..HIGHEST; IPGlob round trips carry the glob text (canonical text expected '
         'back, recomputed from the integers); OUI / IAB objects with their registry records (expected records read '
         'from the idx/txt data files by an independent reader); an IPSet subclass with the default __reduce__ '
-        'restored shows the CPython rule the model uses (empty set lost under protocols 0, 1). non-trivial = distinct case whose implementation output is '
+        'restored shows the CPython rule the model uses (empty set lost under protocols 0, 1); hash: for the round-trip objects '
+        '(all IPSet / OUI / IAB / IPGlob / EUI ones, a third of the others) hash() of the object and of its copy: both the hash '
+        'of the (version, value) resp. (version, first, last) tuple of the case, or both TypeError (IPSet, OUI, IAB). non-trivial = distinct case whose implementation output is '
         'not an error')
 
 DIALECTS = ['mac_eui48', 'mac_unix', 'mac_unix_expanded', 'mac_cisco', 'mac_bare', 'mac_pgsql',
@@ -328,6 +330,21 @@ def c_rt(o, how):
     return Case('roundtrip %s %s' % (rt_tok(o), how), 'roundtrip/%s/%s' % (o[0], how), ('rt', o, how))
 
 
+def c_hash(o, how):
+    return Case('hashrt %s %s' % (rt_tok(o), how), 'hash/%s/%s' % (o[0], how), ('hash', o, how))
+
+
+def hash_fields(o):
+    """the tuple hash() must be the hash of, from the integers of the case: (version, value) for an address and an
+    EUI, (version, first, last) for a network, range or glob; None for the kinds that do not hash (IPSet, OUI, IAB)"""
+    k = o[0]
+    if k in 'SOI':
+        return None
+    if k == 'E':
+        return (o[1], o[2])
+    return ident(o)[1:]
+
+
 def c_rt_default(o, how):
     return Case('roundtrip_default_set %s %s' % (tok(o), how), 'roundtrip-default-reduce/%s/%s' % ('empty' if not o[1] else 'S', how),
                 ('rtd', o, how))
@@ -480,6 +497,9 @@ def generate(rng, tier):
             v = rng.getrandbits(ver)
             for how in rng.sample(HOWS, 4):
                 cases.append(c_rt(('E', ver, v, d), how))
+    # hash() of the object and of its copy: every kind (the unhashable ones always), a third of the others
+    cases += [c_hash(c.args[1], c.args[2]) for c in list(cases)
+              if c.args[0] == 'rt' and (c.args[1][0] in 'SOIGE' or rng.random() < 0.35)]
     return cases
 
 
@@ -544,6 +564,36 @@ def impl(c):
         except Exception as e:
             return '!' + errname(e)
         return t + ' ' + ' '.join(fl)
+    if a[0] == 'hash':
+        o, how = a[1], a[2]
+        x = build(o)
+        try:
+            y = _copy(x, how)
+        except Exception as e:
+            return '!' + errname(e)
+        out = []
+        for z in (x, y):
+            try:
+                hv = hash(z)
+            except TypeError:
+                out.append('!type')
+                continue
+            except Exception as e:
+                out.append('!' + errname(e))
+                continue
+            # the tuple the class says it hashes, read off the object; the oracle compares it with the case's integers
+            if not isinstance(z, (EUI, IPAddress, IPNetwork, IPRange)):
+                out.append('hash(x)=%d-without-TypeError' % hv)
+                continue
+            cand = (z.version, int(z)) if isinstance(z, EUI) else z.key()
+            try:
+                d = {cand: 1}
+                ok = hv == hash(cand) and (z in {z: 1}) and type(hv) is int
+            except Exception as e:
+                out.append('!' + errname(e))
+                continue
+            out.append(enc(tuple(int(i) for i in cand)) if ok else 'hash(x)=%d!=hash(%r)' % (hv, cand))
+        return ' '.join(out)
     if a[0] == 'rtd':
         o, how = a[1], a[2]
         x = plain_ipset()([IPNetwork((v, p), version=ver) for ver, v, p in o[1]])
@@ -651,6 +701,17 @@ def oracle(c, got):
         o, how = a[1], a[2]
         exp = '!' if (not o[1] and how in ('p0', 'p1')) else tok(o)
         return None if got == exp else 'default-reduce IPSet subclass, %s: got %s, the CPython rule gives %s' % (how, got, exp)
+    if a[0] == 'hash':
+        o, how = a[1], a[2]
+        f = hash_fields(o)
+        one = '!type' if f is None else enc(tuple(f))
+        exp = one + ' ' + one
+        if got == exp:
+            return None
+        if f is None:
+            return 'hash() of an %s and of its %s copy must both raise TypeError, got %s' % (
+                {'S': 'IPSet', 'O': 'OUI', 'I': 'IAB'}[o[0]], how, got)
+        return 'hash() of the object and of its %s copy must both be the hash of %r, got %s' % (how, tuple(f), got[:200])
     if a[0] == 'rt':
         o, how = a[1], a[2]
         exp = rt_expected(o) + ' T T T %s T T T' % ('-' if o[0] in 'SOI' else 'T')
@@ -687,4 +748,6 @@ def repro(c):
                 'pickle.loads(pickle.dumps(x, proto)) for how=%s' % (len(a[1][1]), a[2]))
     how = a[2]
     f = {'copy': 'copy.copy(x)', 'deepcopy': 'copy.deepcopy(x)'}.get(how, 'pickle.loads(pickle.dumps(x, %s))' % how[1:])
+    if a[0] == 'hash':
+        return 'x = %s; y = %s; hash(x), hash(y), x.key() if hasattr(x, "key") else (x.version, int(x))' % (b(a[1]), f)
     return 'x = %s; y = %s; str(y) == str(x), y == x, hash(y) == hash(x), type(y)' % (b(a[1]), f)
